@@ -3,6 +3,7 @@ package props
 import (
 	"bytes"
 	"fmt"
+	"hash/fnv"
 	"net"
 
 	"free5gclib/nas/nasConvert"
@@ -16,6 +17,9 @@ func init() { register("C17", "exploration", runC17) }
 
 func runC17(ctx *Ctx) {
 	r := ctx.R
+	if ctx.Isolate() {
+		return
+	}
 	r.Rule = "exhaustive where the domain allows: PLMN 1000x1100; AMF-ID all 2^24; S-NSSAI SST 0..255 x SD{absent,000000,000001,010203,ffffff,upper-case} and SD all 2^24 x SST 1; IPv4 every octet position over 0..255 at 3 bases; " +
 		"IPv6 alphabet (::, ::1, one-octet-set x16, ffff:..., 2001:db8::1); dual = IPv4 alphabet x IPv6 alphabet; PCO all lists of <=3 units over 5 ids x 6 content lengths {0,1,2,4,16,255} (+ the Add* helpers); DNN lengths 0..100; " +
 		"oracle: reference encodings per TS 24.501/23.003/38.414/24.008 and inverse(conversion(x)) == x; distinct = distinct inputs (by construction), all non-trivial"
@@ -89,7 +93,9 @@ func runC17(ctx *Ctx) {
 			}
 		}
 	}
-	v6s := []string{"::", "::1", "ffff:ffff:ffff:ffff:ffff:ffff:ffff:ffff", "2001:db8::1", "2001:db8:cafe::1", "fe80::1:2:3:4", "1:2:3:4:5:6:7:8"}
+	v6s := []string{"::", "::1", "ffff:ffff:ffff:ffff:ffff:ffff:ffff:ffff", "2001:db8::1", "2001:db8:cafe::1", "fe80::1:2:3:4", "1:2:3:4:5:6:7:8",
+		// IPv4-mapped IPv6 addresses (Go's To4() is non-nil for them and String() prints them dotted): still 128 bits on the wire
+		"::ffff:192.0.2.1", "::ffff:0.0.0.0", "::ffff:255.255.255.255", "::ffff:10.45.0.2"}
 	for i := 0; i < 16; i++ {
 		a := make(net.IP, 16)
 		a[i] = 0x80 >> uint(i%8)
@@ -112,6 +118,13 @@ func runC17(ctx *Ctx) {
 				addrs = append(addrs, addr{a, b})
 			}
 		}
+	}
+	{
+		h := fnv.New64a()
+		for _, a := range addrs {
+			fmt.Fprint(h, a)
+		}
+		r.Consistent("address list", fmt.Sprintf("%d addresses, hash %x", len(addrs), h.Sum64()))
 	}
 	ParallelFor(r, len(addrs), func(l *report.Local, i int) {
 		a := addrs[i]
@@ -139,6 +152,15 @@ func runC17(ctx *Ctx) {
 		}
 		if o4 != a.v4 || (a.v6 == "") != (o6 == "") || (a.v6 != "" && !net.ParseIP(o6).Equal(net.ParseIP(a.v6))) {
 			r.Violate("IPAddressToString/not-inverse/"+kind, cs, fmt.Sprintf("got %q %q", o4, o6), nil)
+		}
+		// octets -> text -> octets gives the same bit string
+		if perr := recoverErr(func() {
+			t2 := ngapConvert.IPAddressToNgap(o4, o6)
+			if int(t2.Value.BitLength) != 8*len(want) || !bytes.Equal(t2.Value.Bytes, want) {
+				r.Violate("IPAddressToNgap/not-inverse-of-IPAddressToString/"+kind, cs, fmt.Sprintf("(%q,%q) -> %x/%d, the bit string was %x", o4, o6, t2.Value.Bytes, t2.Value.BitLength, want), nil)
+			}
+		}); perr != nil {
+			r.Violate("IPAddress/panic/"+kind, cs, perr.Error(), nil)
 		}
 	})
 	r.Sample("IPAddressToNgap(10.45.0.2, 2001:db8::1) -> 160-bit string -> IPAddressToString")
@@ -204,7 +226,7 @@ func runC17(ctx *Ctx) {
 	})
 	r.Sample("pco [000d len 4] [0010 len 2] -> Marshal -> 80 000d04.. 001002.. -> UnMarshal")
 	// Add* helpers
-	{
+	if ctx.Lead() {
 		l := r.Local()
 		pco := nasConvert.NewProtocolConfigurationOptions()
 		pco.AddIPAddressAllocationViaNASSignallingUL()
@@ -233,6 +255,6 @@ func runC17(ctx *Ctx) {
 		}
 		l.Merge()
 	}
-	r.Assume("IPv4-mapped IPv6 texts (::ffff:a.b.c.d) are left out of the alphabet: Go prints them in dotted form, the 16 octets are still compared",
+	r.Assume("IPv4-mapped IPv6 addresses (::ffff:a.b.c.d) are compared at the octet level (128 bits on the wire, octets -> text -> octets is the identity): Go prints them in dotted form, so text equality is not demanded",
 		"PCO contents use fixed byte patterns; container ids outside the 5-symbol alphabet are not enumerated")
 }
